@@ -157,4 +157,289 @@ Section DiscEv.
       cbn [ri ref_empty]. rewrite N.eqb_refl. cbv beta iota. rewrite Hhl1. apply Hquiet; [exact Hhl1|].
       intros _. split; [exact Hnf | lia].
   Qed.
+
+  (* ---------------------------------------------------------------- the discovering step, everything exposed *)
+
+  (* the events of the step that establishes the LIB block a: New for the blocks `fresh` (oldest first, the last one is
+     the incoming block b), then the announcement of a *)
+  Definition disc_events (b a : block) (fresh : list block) : list event :=
+    fresh_events (bref b) (R a) fresh ++
+    (if f_irr (c_filter cfg) then irr_events (bref b) 1 0 [a] else []).
+
+  Definition DiscEv (s : fstate) (b : block) (res : fstate * list event * result) : Prop :=
+    exists s' a Fin pre,
+      res = (s', disc_events b a (pre ++ [b]), ROk) /\ In a U /\
+      Forall (fun x => In x U /\ bnum a <= bnum x) (pre ++ [b]) /\
+      apply_all (ri (R a)) [] (fresh_events (bref b) (R a) (pre ++ [b])) = Some (rev (pre ++ [b])) /\
+      Inv U (R a) cfg s' Fin (rev (pre ++ [b])) /\
+      (* the block is its own LIB (delivered New + Irreversible, it stays on the consumer's stack as a final
+         block), or the LIB block was stored before and is NOT delivered as New *)
+      ((a = b /\ pre = [] /\ Fin = [b]) \/ (In (bid a) (keys (store (db s))) /\ bnum a < bnum b /\ Fin = [])) /\
+      libref (db s') = R a /\ last_lib_seen s' = R a /\ last_sent s' = Some b /\
+      In (bid a) (keys (store (db s'))) /\
+      (* what the step retains: everything at or above LIB - kept (the found case purges, the own case does not) *)
+      (forall x, In x U -> In (bid x) (keys (store (db s)) ++ [bid b]) ->
+                 In (bid x) (keys (store (db s'))) \/ bnum x < bnum a - kept) /\
+      (forall id, In id (keys (store (db s'))) -> In id (keys (store (db s)) ++ [bid b])) /\
+      (f_irr (c_filter cfg) = true ->
+         exists m', fin_events (ri (R a)) (R a) b (m0 (R a)) (disc_events b a (pre ++ [b])) = Some m' /\
+                    MInv U (R a) s' Fin (rev (pre ++ [b])) m').
+
+  Lemma kept_or_low (l : list entry) x c : in_U l -> In x U -> In (bid x) (keys l) ->
+    In (bid x) (keys (filter (fun e => c <=? bnum (eb e)) l)) \/ bnum x < c.
+  Proof.
+    intros HU Hx Hk. apply in_map_iff in Hk as (e & Hke & He).
+    assert (Ex : eb e = x) by (apply U_uniq; [apply HU; exact He | exact Hx | exact Hke]).
+    destruct (c <=? bnum (eb e)) eqn:Fe.
+    - left. rewrite <- Hke. apply (in_map key). apply filter_In. split; [exact He | exact Fe].
+    - right. apply N.leb_gt in Fe. rewrite Ex in Fe. exact Fe.
+  Qed.
+
+  (* the block is its own LIB: processInitialInclusiveIrreversibleBlock *)
+  Lemma own_ev s b : PreInv s -> In b U -> find (bid b) (store (db s)) = None ->
+    DiscEv s b (let '(s', evs, ok) := process_initial_inclusive cfg b (with_db s (move_lib (new_db (db s) b) (bref b))) in
+                (s', evs, if ok then ROk else RHandlerErr)).
+  Proof.
+    intros HP Hb Hf. pose proof HP as [Hl He Hnd HU Hun Hls Hlls Hrt].
+    set (en := mkEntry b false).
+    assert (Hen : In en (store (db s) ++ [en])) by (apply in_or_app; right; left; reflexivity).
+    pose proof (dbinv_found U cfg U_id U_uniq U_up s b en HP Hb Hf Hen) as Hd2. cbn [eb en] in Hd2.
+    change (R b) with (bref b) in Hd2.
+    set (d2 := move_lib (new_db (db s) b) (bref b)) in *. set (s2 := with_db s d2).
+    assert (Hcur2 : cursor_lib s2 = bref b).
+    { unfold cursor_lib, s2. cbn [with_db last_lib_seen db]. rewrite Hlls. reflexivity. }
+    unfold process_initial_inclusive. rewrite Hnew, (call_ok cfg Hnofail). cbv beta iota zeta.
+    set (tiny := mkSeg (bid b) (bnum b) (mkEntry b false)).
+    set (ev := mkEv SNew b (seg_ref tiny) (seg_ref tiny) (cursor_lib s2) None 0 0).
+    set (s1' := mkFS (db (mkFS (db s2) (last_sent s2) (last_lib_seen s2) (ncalls s2 + 1))) (Some b)
+                     (last_lib_seen (mkFS (db s2) (last_sent s2) (last_lib_seen s2) (ncalls s2 + 1)))
+                     (ncalls (mkFS (db s2) (last_sent s2) (last_lib_seen s2) (ncalls s2 + 1)))).
+    destruct (process_irr_segment_ev cfg Hnofail [tiny] tiny [] (bref b) s1' eq_refl) as (s' & Hrun & Hdb & Hls' & Hlls').
+    rewrite Hrun. cbv beta iota.
+    assert (Hdb' : db s' = d2) by (rewrite Hdb; reflexivity).
+    assert (Hlast' : last_sent s' = Some b) by (rewrite Hls'; reflexivity).
+    assert (Hev : [ev] ++ (if f_irr (c_filter cfg)
+                           then irr_events (bref b) (N.of_nat (length [tiny])) 0 (map (fun sg => eb (sent sg)) [tiny]) else [])
+                  = disc_events b b ([] ++ [b])).
+    { unfold disc_events, fresh_events, ev. rewrite Hcur2. reflexivity. }
+    rewrite Hev.
+    assert (HI' : Inv U (R b) cfg s' [b] [b]).
+    { constructor; rewrite ?Hdb'.
+      - exact Hd2.
+      - constructor; [|constructor]. split; [exact Hb | apply N.le_refl].
+      - reflexivity.
+      - rewrite Hlast'. split; [exact Hb|]. exists []. split; [constructor|]. split; [reflexivity | constructor]. }
+    assert (Happ : apply_all (ri (R b)) [] (fresh_events (bref b) (R b) ([] ++ [b])) = Some (rev ([] ++ [b]))).
+    { cbn [app fresh_events map rev apply_all]. unfold apply_ev. cbn [estep eblk]. unfold root_ok. cbn [R ri].
+      rewrite N.eqb_refl. reflexivity. }
+    assert (Hkb : In (bid b) (keys (store (db s')))).
+    { rewrite Hdb'. cbn [d2 move_lib new_db store]. rewrite keys_snoc. apply in_or_app. right. left. reflexivity. }
+    exists s', b, [b], []. split; [reflexivity|]. split; [exact Hb|].
+    split; [constructor; [split; [exact Hb | apply N.le_refl] | constructor]|].
+    split; [exact Happ|]. split; [exact HI'|]. split; [left; auto|].
+    split; [rewrite Hdb'; reflexivity|]. split; [rewrite Hlls'; reflexivity|]. split; [exact Hlast'|].
+    split; [exact Hkb|].
+    split.
+    { intros x Hx Hin. left. rewrite Hdb'. cbn [d2 move_lib new_db store]. rewrite keys_snoc. exact Hin. }
+    split.
+    { intros id Hid. rewrite Hdb' in Hid. cbn [d2 move_lib new_db store] in Hid. rewrite keys_snoc in Hid. exact Hid. }
+    intros Hirr. unfold disc_events. rewrite Hirr. cbn [app irr_events].
+    set (e1 := mkEv SNew b (bref b) (bref b) (R b) None 0 0).
+    set (eI := mkEv SIrr b (bref b) (bref b) (bref b) None 0 1).
+    assert (HA : fin_events (ri (R b)) (R b) b (m0 (R b)) [e1] = Some (with_stack (m0 (R b)) [b])).
+    { apply fin_A.
+      - exact Happ.
+      - constructor; [right; reflexivity | constructor].
+      - intros e [<-|[]] He0. discriminate. }
+    eexists. split.
+    - change (fresh_events (bref b) (R b) [b] ++ [eI]) with ([e1] ++ [eI]). rewrite fin_events_app, HA.
+      apply (fin_root (ri (R b)) (R b) b (with_stack (m0 (R b)) [b]) eI []); reflexivity.
+    - constructor; cbn [with_stack m0 fm_stack fm_nfinal fm_last fm_finals fm_stalled fm_any eblk eI app rev].
+      + reflexivity.
+      + reflexivity.
+      + rewrite Hdb'. reflexivity.
+      + intros id [<-|[]]. left. left. reflexivity.
+      + intros id [].
+      + discriminate.
+  Qed.
+
+  (* the LIB part of the discovering step: the LIB does not move, it is announced (disc_lib of MovingLibDisc.v with the
+     events, the cursor fields and the purge written out) *)
+  Lemma disc_lib_ev s3 S3 b evs a : In (eb a) U ->
+    Inv U (R (eb a)) cfg s3 [] S3 -> libref (db s3) = R (eb a) -> last_sent s3 = Some b -> In b U ->
+    bid b <> key a -> blib b = bnum (eb a) -> find (key a) (store (db s3)) <> None ->
+    exists s',
+      lib_tail cfg s3 b evs (Some (seg_of a)) =
+        (s', evs ++ (if f_irr (c_filter cfg) then irr_events (bref b) 1 0 [eb a] else []), ROk) /\
+      Inv U (R (eb a)) cfg s' [] S3 /\
+      libref (db s') = R (eb a) /\ last_lib_seen s' = R (eb a) /\ last_sent s' = Some b /\
+      store (db s') = filter (fun e => bnum (eb a) - kept <=? bnum (eb e)) (store (db s3)).
+  Proof.
+    intros HaU HI Hlib Hls Hb Hne Hbl Hsto.
+    pose proof HI as [Hd Hfin Hflast Hh]. rewrite Hls in Hh. destruct Hh as (_ & p & Hc & HS & Hsent).
+    pose proof Hd as [Hnd HU Hcoh Hnum Hextra Hlc Hrt0].
+    pose proof (di_wf U (R (eb a)) U_id U_up _ Hd) as Hwf. pose proof (di_up U (R (eb a)) _ Hd) as Hup.
+    assert (Hril : ri (libref (db s3)) = key a) by (rewrite Hlib; reflexivity).
+    assert (Hrnl : rn (libref (db s3)) = bnum (eb a)) by (rewrite Hlib; reflexivity).
+    destruct p as [|et p' _] using rev_ind.
+    { apply chain_nil_inv in Hc. congruence. }
+    destruct (chain_top _ _ _ _ _ Hc) as [Hf Hk].
+    assert (Eet : eb et = b) by (apply (stored_is_self U U_uniq _ _ _ HU Hb Hf)).
+    destruct (find (ri (libref (db s3))) (store (db s3))) as [el|] eqn:Hel; [|rewrite Hril in Hel; contradiction].
+    unfold lib_tail. cbv beta iota zeta. rewrite Hls, (di_has_lib U (R (eb a)) _ Hd). cbn [negb].
+    pose proof (bic_lib (db s3) (bid b) (p' ++ [et]) et Hwf Hnum Hup Hc) as Hbic.
+    rewrite Eet in Hbic. fold (bref b) in Hbic. rewrite Hbl, <- Hrnl. rewrite Hbic; [|destruct p'; discriminate | exact Hf].
+    cbn [ri]. destruct (N.eqb_spec (ri (libref (db s3))) 0) as [E0|_]; [exfalso; apply (di_lid U (R (eb a)) _ Hd); exact E0|].
+    unfold has_new_irr_segment. cbn [ri]. rewrite N.eqb_refl. cbn [negb andb app].
+    destruct (dbinv_purge_same U cfg U_id U_uniq U_up (R (eb a)) (db s3) (bid b) (p' ++ [et]) el kept Hd Hel Hc) as (Hd' & Hl' & Hst' & Hc').
+    set (d' := purge_before_lib (move_lib (db s3) (mkR (ri (libref (db s3))) (rn (libref (db s3))))) kept) in *.
+    destruct (process_irr_segment_ev cfg Hnofail [seg_of a] (seg_of a) [] (bref b) (with_db s3 d') eq_refl)
+      as (s5 & Hrun5 & Hdb5 & Hls5 & Hlls5).
+    rewrite Hrun5. cbv beta iota. cbn [negb].
+    destruct (process_stalled_segment_ok cfg Hnofail [] (bref b) s5)
+      as (s6 & ev6 & Hrun6 & (Hdb6 & Hls6 & Hlls6) & Hm6 & Hs6).
+    rewrite Hrun6. cbv beta iota.
+    assert (Hev6 : ev6 = []).
+    { destruct (f_stalled (c_filter cfg)); [|exact Hm6]. cbn [map] in Hm6. apply map_eq_nil in Hm6. exact Hm6. }
+    subst ev6. rewrite app_nil_r.
+    assert (Hdb : db s6 = d') by (rewrite Hdb6, Hdb5; reflexivity).
+    assert (Hlast : last_sent s6 = Some b) by (rewrite Hls6, Hls5; exact Hls).
+    assert (Hlr : libref d' = R (eb a)) by (rewrite Hl', <- Hlib; destruct (libref (db s3)); reflexivity).
+    exists s6. split; [reflexivity|]. split; [|split; [|split; [|split]]].
+    - constructor; rewrite ?Hdb.
+      + exact Hd'.
+      + constructor.
+      + cbn [rev]. exact Hlr.
+      + rewrite Hlast. split; [exact Hb|]. exists (p' ++ [et]). rewrite Hl'. cbn [ri]. split; [exact Hc'|].
+        split; [exact HS | exact Hsent].
+    - rewrite Hdb. exact Hlr.
+    - rewrite Hlls6, Hlls5. reflexivity.
+    - exact Hlast.
+    - rewrite Hdb, Hst', Hrnl. reflexivity.
+  Qed.
+
+  (* the step that finds the LIB among the stored ancestors of the new block *)
+  Lemma found_ev s b y A a B' :
+    PreInv s -> In b U -> find (bid b) (store (db s)) = None ->
+    chain (store (db s) ++ [mkEntry b false]) (bid b) y (A ++ a :: B' ++ [mkEntry b false]) ->
+    bnum (eb a) = blib b ->
+    DiscEv s b (process_tail cfg (with_db s (move_lib (new_db (db s) b) (R (eb a)))) b [] [] None
+                             (map seg_of (B' ++ [mkEntry b false])) (Some (seg_of a))).
+  Proof.
+    intros HP Hb Hf Hc Hbl. pose proof HP as [Hl He Hnd HU Hun Hls Hlls Hrt].
+    set (en := mkEntry b false) in *. set (l1 := store (db s) ++ [en]) in *.
+    assert (Hain : In a (A ++ a :: B' ++ [en])) by (apply in_or_app; right; left; reflexivity).
+    assert (Ha : In a l1) by (eapply chain_in; eassumption).
+    pose proof (dbinv_found U cfg U_id U_uniq U_up s b a HP Hb Hf Ha) as Hd2.
+    assert (HaU : In (eb a) U) by (apply (di_inU U _ _ Hd2); exact Ha).
+    set (d2 := move_lib (new_db (db s) b) (R (eb a))) in *. set (s2 := with_db s d2).
+    pose proof (di_wf U (R (eb a)) U_id U_up _ Hd2) as Hwf2.
+    assert (Hc2 : chain (store (db s2)) (bid b) (ri (libref (db s2))) (B' ++ [en])).
+    { apply (chain_suffix l1 y (B' ++ [en]) (bid b) A a Hwf2 Hc). }
+    assert (HI2 : Inv U (R (eb a)) cfg s2 [] []).
+    { constructor.
+      - exact Hd2.
+      - constructor.
+      - reflexivity.
+      - cbn [s2 with_db last_sent]. rewrite Hls. split; [reflexivity|]. split; [reflexivity|]. split.
+        + intros e Hin. cbn [db d2 move_lib new_db store] in Hin.
+          apply in_app_or in Hin as [Hin|[<-|[]]]; [apply Hun; exact Hin | reflexivity].
+        + rewrite Hincl. discriminate. }
+    assert (G : forall x, In x B' -> esent x = false).
+    { intros x Hx. assert (Hx1 : In x l1).
+      { eapply chain_in; [exact Hc|]. apply in_or_app. right. right. apply in_or_app. left. exact Hx. }
+      apply in_app_or in Hx1 as [Hx1|[<-|[]]]; [apply Hun; exact Hx1 | reflexivity]. }
+    destruct (trigger_first_ev U (R (eb a)) cfg Hnofail Hnew Hundo U_id U_uniq U_up
+                (R_id U U_id _ HaU) (R_num U U_uniq _ HaU) (R_up U U_up _ HaU) (R_decl U U_uniq D_decl _ HaU)
+                s2 [] [] b B' [] B' [] None (Some (seg_of a)) HI2 Hb Hc2 eq_refl (Forall_nil _) eq_refl)
+      as (s3 & Rs & Ru & HR & Hrun & Happ & HI3 & Hk3 & Hls3 & Hlr3 & Hlls3 & HRs & HRu & Hst3 & Hex3).
+    assert (HRs0 : Rs = []).
+    { destruct Rs as [|r Rs']; [reflexivity|]. exfalso.
+      pose proof (Forall_inv HRs) as Hr. cbn beta in Hr.
+      rewrite (G r) in Hr; [discriminate|]. rewrite HR. left. reflexivity. }
+    subst Rs. cbn [app] in HR. subst Ru.
+    assert (Hcur2 : cursor_lib s2 = R (eb a)).
+    { unfold cursor_lib, s2. cbn [with_db last_lib_seen db]. rewrite Hlls. reflexivity. }
+    cbn [rev map] in Hrun, Happ. rewrite (filter_sent_none B' G) in Hrun.
+    unfold undo_evs, new_evs in Hrun, Happ. cbn [batch_events length app] in Hrun, Happ.
+    rewrite Hcur2 in Hrun, Happ. fold en in Hrun, Happ, HI3. fold s2. rewrite Hrun.
+    assert (Hne : bid b <> key a).
+    { destruct (chain_snoc_inv _ _ _ _ _ Hc2) as (Hx & _ & _). exact Hx. }
+    assert (Hsto : find (key a) (store (db s3)) <> None).
+    { intros Hn. apply find_none in Hn. apply Hn. rewrite Hk3. apply in_map. exact Ha. }
+    destruct (disc_lib_ev s3 _ b (fresh_events (bref b) (R (eb a)) (map eb (B' ++ [en]))) a HaU HI3 Hlr3 Hls3 Hb Hne (eq_sym Hbl) Hsto)
+      as (s' & Hlt & HI' & Hlr' & Hlls' & Hls' & Hst').
+    rewrite Hlt.
+    assert (Hfresh : map eb (B' ++ [en]) = map eb B' ++ [b]) by (rewrite map_app; reflexivity).
+    rewrite Hfresh in *.
+    pose proof HI3 as [Hd3 _ _ _]. pose proof (di_inU U _ _ Hd3) as HU3.
+    assert (Hk3' : keys (store (db s3)) = keys (store (db s)) ++ [bid b]).
+    { rewrite Hk3. cbn [s2 with_db db d2 move_lib new_db store]. apply keys_snoc. }
+    destruct (chain_split_order _ _ _ _ _ _ Hwf2 Hc) as [Habove _].
+    assert (Hltb : bnum (eb a) < bnum b).
+    { apply (Habove en). apply in_or_app. right. left. reflexivity. }
+    exists s', (eb a), [], (map eb B'). split; [reflexivity|]. split; [exact HaU|].
+    split.
+    { rewrite <- Hfresh. apply Forall_forall. intros x Hx. apply in_map_iff in Hx as (e & <- & Hein).
+      split.
+      - apply (di_inU U _ _ Hd2). cbn [d2 move_lib new_db store]. fold en. fold l1. eapply chain_in; [exact Hc|].
+        apply in_or_app. right. right. exact Hein.
+      - apply N.lt_le_incl. apply Habove. exact Hein. }
+    split; [exact Happ|]. split; [exact HI'|].
+    split.
+    { right. split; [|split; [exact Hltb | reflexivity]].
+      apply in_app_or in Ha as [Ha|[Ea|[]]]; [apply (in_map key) in Ha; exact Ha|].
+      exfalso. apply Hne. rewrite <- Ea. reflexivity. }
+    split; [exact Hlr'|]. split; [exact Hlls'|]. split; [exact Hls'|].
+    assert (Hkeep : forall x, In x U -> In (bid x) (keys (store (db s)) ++ [bid b]) ->
+                      In (bid x) (keys (store (db s'))) \/ bnum x < bnum (eb a) - kept).
+    { intros x Hx Hin. rewrite Hst'. apply (kept_or_low _ x _ HU3 Hx). rewrite Hk3'. exact Hin. }
+    split.
+    { destruct (Hkeep (eb a) HaU) as [H|H]; [|exact H | lia].
+      rewrite <- Hk3'. rewrite Hk3. apply (in_map key). exact Ha. }
+    split; [exact Hkeep|].
+    split.
+    { intros id Hid. rewrite Hst' in Hid. apply in_filter_keys in Hid. rewrite <- Hk3'. exact Hid. }
+    intros Hirr. unfold disc_events. rewrite Hirr. cbn [irr_events].
+    set (evN := fresh_events (bref b) (R (eb a)) (map eb B' ++ [b])) in *.
+    set (eI := mkEv SIrr (eb a) (bref (eb a)) (bref b) (bref (eb a)) None 0 1).
+    set (S3 := rev (map eb B' ++ [b])) in *.
+    assert (HA : fin_events (ri (R (eb a))) (R (eb a)) b (m0 (R (eb a))) evN = Some (with_stack (m0 (R (eb a))) S3)).
+    { apply fin_A; [exact Happ| |].
+      - eapply Forall_impl; [|apply fresh_events_step]. cbn beta. auto.
+      - intros e He0 Hs0. pose proof (fresh_events_step (bref b) (R (eb a)) (map eb B' ++ [b])) as HsN.
+        rewrite Forall_forall in HsN. rewrite (HsN e He0) in Hs0. discriminate. }
+    (* the bottom of the stack is the child of the LIB on the chain, not the LIB *)
+    assert (Hbot : exists p0 rest, rev S3 = p0 :: rest /\ bid p0 <> bid (eb a)).
+    { unfold S3. rewrite rev_involutive.
+      destruct B' as [|e1 B1].
+      - exists b, []. split; [reflexivity|]. exact Hne.
+      - exists (eb e1), (map eb B1 ++ [b]). split; [reflexivity|].
+        apply (chain_not_bottom _ _ _ _ Hc2 e1). left. reflexivity. }
+    destruct Hbot as (p0 & rest & Hrev & Hp0).
+    eexists. split.
+    - rewrite fin_events_app, HA.
+      apply (fin_root_nf (ri (R (eb a))) (R (eb a)) b (with_stack (m0 (R (eb a))) S3) eI p0 rest);
+        cbn [with_stack m0 fm_any fm_stalled fm_stack fm_nfinal eI eblk]; auto.
+    - constructor; cbn [with_stack m0 fm_stack fm_nfinal fm_last fm_finals fm_stalled fm_any eI eblk].
+      + reflexivity.
+      + reflexivity.
+      + rewrite Hlr'. reflexivity.
+      + intros id [<-|[]]. right. reflexivity.
+      + intros id [].
+      + intros H. exfalso. unfold S3 in H. apply (f_equal (@rev block)) in H. rewrite rev_involutive in H.
+        cbn [rev] in H. destruct (map eb B'); discriminate.
+  Qed.
+
+  (* ---------------------------------------------------------------- one ProcessBlock call before the discovery *)
+
+  Lemma disc_step_ev s b : PreInv s -> In b U ->
+    PreQuiet s b (fk_step cfg s b) \/
+    (~ In (bid b) (keys (store (db s))) /\ DiscEv s b (fk_step cfg s b)).
+  Proof.
+    intros HP Hb. destruct (disc_cases s b HP Hb) as [Hq|(Hk & [Hown|(y & A & a & B' & Hc & Hna & Hfound)])].
+    - left. exact Hq.
+    - right. split; [exact Hk|]. rewrite Hown. apply own_ev; [exact HP | exact Hb | apply find_none; exact Hk].
+    - right. split; [exact Hk|]. rewrite Hfound. apply (found_ev s b y A a B'); try assumption. apply find_none. exact Hk.
+  Qed.
 End DiscEv.
